@@ -663,7 +663,7 @@ func genOvlCfg(r *hx.Rng) ovlCfg {
 func init() { hx.Register("C13", Run, Replay) }
 
 func Run(c *hx.Ctx) {
-	c.Rep.Rule = "split: texts of 11 kinds (ASCII prose, spaced prose with a space every 50 bytes, CJK without spaces, emoji/ZWJ, combining sequences, long tokens, whitespace only, mixed, Latin-1 mixed, invalid UTF-8, whitespace-edged) x 5 units x limits 1..4000 x dyadic tokens-per-char, length 0..4x the limit; bound: characters/tokens, limit >= 200, generated with a space every 50 bytes and sentence ends placed at the limit; sweep: for hard maxima in characters and tokens (>= 1 token per byte, thorough also < 1), prose with a space every 50 bytes (4 backgrounds: short words, 30-45 byte words, competing punctuation, multi-byte words) in which each kind of break opportunity (sentence end + space, sentence end + closing quote/bracket + space, sentence end + line/paragraph break, clause punctuation, bare newline, paragraph break, plain space, punctuation without whitespace) starts at EVERY byte offset limit-60..limit+3 of the text (first piece) and at every absolute offset that can be limit-60..limit+3 of the remainder after one (thorough: two) pieces, one in eight also through ChunkDocumentWithConfig; doc: 1-3 paragraphs through ChunkDocumentWithConfig; ovl: 1-5 chunk texts x 4 strategies x sizes through ApplyOverlapToChunks; cwo: paragraph documents through ChunkWithOverlapEnabled (character and sentence overlap); non-trivial = more than one piece / at least one overlap applied; deepening round: splitb = SplitToSize with 0-30 caller-supplied boundaries (positions around the byte position of the limit and its multiples, at the edges of the +-25% window, negative, beyond the text; scores of the boundary types and negative ones); fsp = FindSplitPointAt/FindSplitPoint at the maximum or another limit of any unit, with and without boundaries; size = Calculate on every text kind; preset = every preset constructor; docp = ChunkDocumentWithConfig on 1-4 pages (empty pages included, one in six with the default configuration and rag.ChunkDocument); nonspace = the specification function of the conservation theorems on every text kind (invalid UTF-8 included); sent = splitIntoSentences on sentence material (abbreviations, initials, capitals and lower case around the punctuation, characters whose last byte is 0x85/0xA0 before a capital, non-ASCII case) and on every text kind; chunk/cwe = Chunker.Chunk and ChunkWithOverlapEnabled from the paragraphs (blank paragraphs, orphans below MinChunkSize, oversized paragraphs of sentence material), each call repeated on the same chunker"
+	c.Rep.Rule = "split: texts of 11 kinds (ASCII prose, spaced prose with a space every 50 bytes, CJK without spaces, emoji/ZWJ, combining sequences, long tokens, whitespace only, mixed, Latin-1 mixed, invalid UTF-8, whitespace-edged) x 5 units x limits 1..4000 x dyadic tokens-per-char, length 0..4x the limit; bound: characters/tokens, limit >= 200, generated with a space every 50 bytes and sentence ends placed at the limit; sweep: for hard maxima in characters and tokens (>= 1 token per byte, thorough also < 1), prose with a space every 50 bytes (4 backgrounds: short words, 30-45 byte words, competing punctuation, multi-byte words) in which each kind of break opportunity (sentence end + space, sentence end + closing quote/bracket + space, sentence end + line/paragraph break, clause punctuation, bare newline, paragraph break, plain space, punctuation without whitespace) starts at EVERY byte offset limit-60..limit+3 of the text (first piece) and at every absolute offset that can be limit-60..limit+3 of the remainder after one (thorough: two) pieces, one in eight also through ChunkDocumentWithConfig; doc: 1-3 paragraphs through ChunkDocumentWithConfig; ovl: 1-5 chunk texts x 4 strategies x sizes through ApplyOverlapToChunks; cwo: paragraph documents through ChunkWithOverlapEnabled (character and sentence overlap); non-trivial = more than one piece / at least one overlap applied; deepening round: splitb = SplitToSize with 0-30 caller-supplied boundaries (positions around the byte position of the limit and its multiples, at the edges of the +-25% window, negative, beyond the text; scores of the boundary types and negative ones); fsp = FindSplitPointAt/FindSplitPoint at the maximum or another limit of any unit, with and without boundaries; size = Calculate on every text kind; preset = every preset constructor; docp = ChunkDocumentWithConfig on 1-4 pages (empty pages included, one in six with the default configuration and rag.ChunkDocument); nonspace = the specification function of the conservation theorems on every text kind (invalid UTF-8 included); sent = splitIntoSentences on sentence material (abbreviations, initials, capitals and lower case around the punctuation, characters whose last byte is 0x85/0xA0 before a capital, non-ASCII case) and on every text kind; chunk/cwe = Chunker.Chunk and ChunkWithOverlapEnabled from the paragraphs (blank paragraphs, orphans below MinChunkSize, oversized paragraphs of sentence material), each call repeated on the same chunker; strengthening round 4 (large): one physical line / token / sentence / paragraph of 6 flavours (ordinary sentences, unpunctuated words, one long token, CJK, Latin-1 prose, sentence material) with a length just below, at, just above and up to 2x beyond 4096 and 65536 bytes (thorough: 262144), as the only, first, middle or last paragraph of a chunk or as one line of a multi-line paragraph, enumerated x overlap strategy (character, sentence, paragraph) through ApplyOverlapToChunks; the same texts x 5 units through SplitToSize / ChunkDocumentWithConfig, through splitIntoSentences and through Chunk / ChunkWithOverlapEnabled (paragraph packed by sentences and kept whole)"
 	// hand-picked edge cases first
 	for _, e := range edgeCases() {
 		if !runSplit(c, e.text, e.cfg) {
@@ -764,6 +764,11 @@ func Run(c *hx.Ctx) {
 	}
 	// deepening round: sentence splitting and packing, Chunk / ChunkWithOverlapEnabled end to end (sentences.go)
 	if !runSentences(c) {
+		return
+	}
+	// strengthening round 4: lines, tokens, sentences, paragraphs and texts at the scale
+	// of fixed-size buffers (4 KiB, 64 KiB), every overlap strategy and splitting API (large.go)
+	if !runLarge(c) {
 		return
 	}
 }
